@@ -96,16 +96,36 @@ def check(fb, ctx):
     # blocks: loaded with their index, third-party blocks resolved against the snapshot table, key map rebuilt
     lc = mirq.calls_matching(fb, rb, r"authorizer::load_and_translate_block$")
     ctx.check(len(lc) == 1, "READER", "from_snapshot: blocks are reloaded through load_and_translate_block", "READER|blocks|loader", f"found {len(lc)} calls", rwhere)
-    lb = [l for l in find_all(rh["body"], lambda z: z.get("k") == "match" and z.get("src") == "ForLoopDesugar") if find_all(l["scrut"], lambda z: z.get("k") == "field" and z.get("name") == "blocks") and mcalls(l["scrut"], r"::enumerate$")]
+    is_load = lambda z: z.get("k") == "call" and (z.get("f", {}).get("res", {}).get("path") or "").endswith("load_and_translate_block")
+    loops = [l for l in find_all(rh["body"], lambda z: z.get("k") == "match" and z.get("src") == "ForLoopDesugar") if find_all(l["scrut"], lambda z: z.get("k") == "field" and z.get("name") == "blocks") and mcalls(l["scrut"], r"::enumerate$")]
+    lb = [l for l in loops if find_all(l, is_load)]
+    ctx.check(len(lb) == 1, "READER", "from_snapshot: one loop `for (i, block) in world.blocks.iter().enumerate()` loads the blocks", "READER|blocks|loop", f"{len(lb)} such loops", rwhere)
     if lb:
-        call = [c for c in find_all(lb[0], lambda z: z.get("k") == "call" and (z.get("f", {}).get("res", {}).get("path") or "").endswith("load_and_translate_block"))]
+        call = find_all(lb[0], is_load)
         idx_ok = bool(call) and is_local(strip(call[0]["args"][1]))
         sym_fix = [a for a in find_all(lb[0], lambda z: z.get("k") == "assign" and strip(z["lhs"]).get("k") == "field" and strip(z["lhs"]).get("name") == "symbols")]
         guarded = [i for i in find_all(lb[0], lambda z: z.get("k") == "if") if find_all(i["cond"], lambda z: z.get("k") == "field" and z.get("name") == "external_key") and any(find_all(i["then"], lambda z: z is a) for a in sym_fix)]
         ctx.check(idx_ok, "READER", "from_snapshot: block i is loaded as block i", "READER|blocks|index", "load_and_translate_block is not given the enumeration index", rwhere)
         ctx.check(bool(guarded) and call and guarded[0]["ln"] < call[0]["ln"], "READER", "from_snapshot: a third-party block is resolved against the snapshot's table", "READER|blocks|third-party-table", "load_and_translate_block resolves a block with an external key against block.symbols, which proto_snapshot_block_to_token_block leaves empty: `block.symbols` must be set for such blocks before loading", rwhere)
-        km = [c for c in mcalls(lb[0], r"Vec::<T, A>::push$") if "or_default" in str(c["recv"])]
-        ctx.check(len(km) == 1 and is_local(strip(km[0]["args"][0])), "READER", "from_snapshot: public_key_to_block_id rebuilt from external keys with the block index", "READER|blocks|keymap", "the key -> block map is not rebuilt", rwhere)
+    km = [c for l in loops for c in mcalls(l, r"Vec::<T, A>::push$") if "or_default" in str(c["recv"])]
+    ctx.check(len(km) == 1 and is_local(strip(km[0]["args"][0])), "READER", "from_snapshot: public_key_to_block_id rebuilt from external keys with the block index", "READER|blocks|keymap", "the key -> block map is not rebuilt (expected one `map.entry(key id).or_default().push(i)` in a loop over the blocks)", rwhere)
+    # KEYMAP: trusted origins of block rules are computed while a block is loaded, from the key -> block map; a scope may name the
+    # key of a LATER block, so no insertion into that map may follow (in the CFG) the point where a block is loaded.
+    for fpath in (S + "::from_snapshot", "biscuit_auth::token::builder::authorizer::AuthorizerBuilder::build_inner"):
+        b = fb.body(fpath)
+        loads = [c.bb for c in mirq.calls_matching(fb, b, r"authorizer::load_and_translate_block$")]
+        for i, blk in enumerate(b["blocks"]):
+            for st in blk["s"]:
+                rv = st["r"]
+                if rv.get("k") == "agg" and rv.get("ak") == "closure":
+                    nest = [x for k, x in fb.bodies.items() if k == rv["closure"] or k.startswith(rv["closure"] + "::")]
+                    if any(mirq.calls_matching(fb, cb, r"authorizer::load_and_translate_block$") for cb in nest):
+                        loads.append(i)
+        ins = [c for c in fb.calls(b) if re.search(r"HashMap::<[^>]*>::entry$", c.callee) and re.match(r"\[usize, std::vec::Vec<usize\b", str(c.gargs))]
+        short = ("Authorizer" if "snapshot" in fpath else "AuthorizerBuilder") + "::" + fpath.split("::")[-1]
+        ctx.check(bool(loads) and bool(ins), "KEYMAP", f"{short}: block loading and key-map insertion found", f"KEYMAP|{short}|anchors", f"{len(loads)} load point(s), {len(ins)} insertion(s) into HashMap<usize, Vec<usize>>", f"{b['file']}:{b['line']}")
+        late = sorted({c.ln for c in ins for l in loads if c.bb in mirq.reachable_from(b, l)})
+        ctx.check(not late, "KEYMAP", f"{short}: the key -> block map is complete before the first block is loaded", f"KEYMAP|{short}|complete-before-load", f"insertion(s) at line(s) {late} can run after a block has been loaded: a rule or block scope naming the key of a later block gets trusted origins without that block", f"{b['file']}:{late[0] if late else b['line']}")
     # ---- ORIGIN mapping
     ob = fb.hir_of("biscuit_auth::token::authorizer::snapshot::authorizer_origin_to_proto_origin")
     ifs = [i for i in find_all(ob["body"], lambda z: z.get("k") == "if")]
